@@ -319,21 +319,21 @@ func (t *NativeArrayTuple[T]) ConcatVal(other Value) (Value, Value) {
 			newList = append(newList, *o...)
 			return Ref(&newList), Undefined
 		case ArrayList:
-			newList := make(ArrayListOfValue, len(*t), len(*t)+o.Length())
+			newList := make(ArrayListOfValue, len(*t)+o.Length())
 			for i, element := range *t {
 				newList[i] = element.ToValue()
 			}
 			for i, element := range o.Elements() {
-				newList[i+o.Length()] = element
+				newList[len(*t)+i] = element
 			}
 			return Ref(&newList), Undefined
 		case ArrayTuple:
-			newList := make(ArrayTupleOfValue, len(*t), len(*t)+o.Length())
+			newList := make(ArrayTupleOfValue, len(*t)+o.Length())
 			for i, element := range *t {
 				newList[i] = element.ToValue()
 			}
 			for i, element := range o.Elements() {
-				newList[i+o.Length()] = element
+				newList[len(*t)+i] = element
 			}
 			return Ref(&newList), Undefined
 		}
